@@ -40,6 +40,29 @@ def is_env(node) -> bool:
     return t in ENV_NAMES or t.endswith("['vars']") or t.endswith('["vars"]')
 
 
+def list_size_guard_ok(pm) -> bool:
+    """re-assignment of a declared list compares the *previously recorded* length with the length of the new value and
+    raises on a mismatch; both operands are read before the record is updated"""
+    ha = pm.func("_handle_assignment_ast")
+    loc = Locals(ha)
+    found = False
+    for n in walk_local(ha):
+        if isinstance(n, ast.If) and any(isinstance(x, ast.Raise) for x in n.body):
+            t = norm(n.test)
+            if "!=" in t and "expected" in t and "new_length" in t:
+                ex = loc.defs.get("expected", [])
+                nl = loc.defs.get("new_length", [])
+                if any("'length'" in norm(d) for d in ex if isinstance(d, ast.expr)) and any("len(value_obj)" in norm(d) or "list_length_from_ast" in norm(d) for d in nl if isinstance(d, ast.expr)):
+                    found = any(isinstance(a, ast.If) and "is_declared" in norm(a.test) and "_is_list_type" in norm(a.test) for a in pm.ancestors(n))
+                    # the record must not have been updated yet when the old length is read: no record_list_state(...) call and
+                    # no store into list_info precedes the comparison inside the function
+                    for c in walk_local(ha):
+                        upd = (isinstance(c, ast.Call) and call_name(c) == "record_list_state") or (isinstance(c, ast.Assign) and "list_info" in norm(c.targets[0]))
+                        if upd and pm.enclosing_func(c) is ha and (c.lineno, c.col_offset) < (n.lineno, n.col_offset):
+                            found = False
+    return found
+
+
 def run(cx):
     pm = mod(PARSER)
     cx.consulted(pm)
@@ -322,15 +345,7 @@ def run(cx):
     loc = Locals(ha)
     # ---- C03-LIST-SIZE -----------------------------------------------------------------------
     r = cx.rule("C03-LIST-SIZE", "re-assigning a declared list with a statically different length is rejected (the tracked length feeds folded len())", floor=1)
-    found = False
-    for n in walk_local(ha):
-        if isinstance(n, ast.If) and any(isinstance(x, ast.Raise) for x in n.body):
-            t = norm(n.test)
-            if "!=" in t and "expected" in t and "new_length" in t:
-                ex = loc.defs.get("expected", [])
-                nl = loc.defs.get("new_length", [])
-                if any("'length'" in norm(d) for d in ex if isinstance(d, ast.expr)) and any("len(value_obj)" in norm(d) or "list_length_from_ast" in norm(d) for d in nl if isinstance(d, ast.expr)):
-                    found = any(isinstance(a, ast.If) and "is_declared" in norm(a.test) and "_is_list_type" in norm(a.test) for a in pm.ancestors(n))
+    found = list_size_guard_ok(pm)
     r.check(found, "_handle_assignment_ast/list-size-mismatch-rejected", (pm, ha), "the size-mismatch rejection for re-assigned lists is gone: the statically tracked length (used to fold len()) can become stale")
 
 
